@@ -15,6 +15,7 @@
 package transport
 
 import (
+	"crypto/tls"
 	"encoding/binary"
 	"io"
 	"net"
@@ -104,6 +105,12 @@ func (p *conn) GetOption(n string) (interface{}, error) {
 	switch n {
 	case mangos.OptionMaxRecvSize:
 		return p.maxrx, nil
+	case mangos.OptionTLSConnState:
+		// Report the state as it is now: a value recorded when the pipe
+		// was created predates the (lazy) server side TLS handshake.
+		if tc, ok := p.c.(*tls.Conn); ok {
+			return tc.ConnectionState(), nil
+		}
 	}
 	if v, ok := p.options[n]; ok {
 		return v, nil
